@@ -64,8 +64,9 @@ for k in range(0, len(cases), SH):
 mut = []
 for c, l in zip(cases, labels):
     if l[1] == "setup" and l[2] == 0 and l[3]:
-        assert c[0] == 1 and c[21] == len(l[3]) and c[22:22 + c[21]] == l[3]
-        mut.append(c[:21] + [0] + c[22 + c[21]:])
+        # tag S stop dt rev period cont adv dtdx(2) lo(2) hi(2) life ncls cfac(2)*3 nland cells
+        assert c[0] == 1 and c[22] == len(l[3]) and c[23:23 + c[22]] == l[3]
+        mut.append(c[:22] + [0] + c[23 + c[22]:])
 if mut:
     f = out / "mut.v"
     body = ";\n ".join("[" + "; ".join(str(x) if x >= 0 else f"({x})" for x in c) + "]" for c in mut)
